@@ -13,6 +13,7 @@ import (
 	"strings"
 	"time"
 
+	"github.com/iden3/go-iden3-crypto/poseidon"
 	"github.com/iden3/go-merkletree-sql/v2"
 	"github.com/iden3/go-schema-processor/v2/merklize"
 	"github.com/iden3/go-schema-processor/v2/verifiable"
@@ -1202,6 +1203,51 @@ func (d *drv) pathStream() {
 		d.recordPathPrims(parts)
 		d.addCase(func(f *coqgen.File) string { return "IPath " + partsCoq(f, parts) }, o.Class, input)
 	}
+	// every array of a document: indices len-1, len, len+1 (and below them), through
+	// NewPathFromDocument and Merklizer.ResolveDocPath
+	doc2 := []byte(`{"@context":{"id":"@id","type":"@type","items":{"@id":"urn:v:items"},"v":{"@id":"urn:v:v"},"w":{"@id":"urn:v:w"},"tags":{"@id":"urn:v:tags"},"one":{"@id":"urn:v:one"},"s":{"@id":"urn:v:s"}},"id":"urn:a","items":[{"id":"urn:i0","v":["a","b","c"]},{"id":"urn:i1","v":["d"],"w":[]}],"tags":["t1","t2"],"one":["only"],"s":"x"}`)
+	var mz2 *merklize.Merklizer
+	if o := guard(watchdog, func() error {
+		var err error
+		mz2, err = merklize.MerklizeJSONLD(context.Background(), bytes.NewReader(doc2), merklize.WithDocumentLoader(d.loader))
+		return err
+	}); o.Class != "ok" {
+		d.rep.Fail("c12-generator", "path stream: document 2 not merklized: "+o.Msg, string(doc2))
+	} else {
+		var obj any
+		_ = json.Unmarshal(doc2, &obj)
+		for _, ps := range arrayIndexPaths(obj, "") {
+			ps := ps
+			input := map[string]any{"stream": "path-index", "path": ps}
+			for name, f := range map[string]func() error{
+				"NewPathFromDocument": func() error {
+					p, err := merklize.Options{DocumentLoader: d.loader}.NewPathFromDocument(doc2, ps)
+					if err != nil {
+						return err
+					}
+					_, err = p.MtEntry()
+					return err
+				},
+				"Merklizer.ResolveDocPath": func() error {
+					p, err := mz2.ResolveDocPath(ps)
+					if err != nil {
+						return err
+					}
+					_, _, err = mz2.Proof(context.Background(), p)
+					return err
+				},
+			} {
+				qo := guard(watchdog, f)
+				d.rep.Evaluations++
+				d.rep.Count("path-index:" + name + ":" + qo.Class)
+				d.rep.Distinct("path-index:" + name + ps)
+				if qo.Class == "panic" || qo.Class == "hang" {
+					d.fail(name, qo, input)
+				}
+			}
+		}
+	}
+	d.slotPathStream()
 	// path strings resolved against the document / a context
 	ctxBytes := []byte(`{"@context":{"@vocab":"urn:v:","id":"@id","type":"@type","T":{"@id":"urn:v:T","@context":{"f":{"@id":"urn:v:f","@type":"http://www.w3.org/2001/XMLSchema#integer"}}}}}`)
 	for _, ps := range []string{"", ".", "..", "s", "s.", ".s", "p.q", "p.q.0", "p.q.-1", "p.q.99999999999999999999", "p..q", " ", "s. ", "\x00", long, "p." + long, strings.Repeat("p.", 2000) + "q", "T.f", "T..f", "f"} {
@@ -1246,6 +1292,186 @@ func (d *drv) pathStream() {
 			if qo.Class == "panic" || qo.Class == "hang" {
 				d.fail(name, qo, input)
 			}
+		}
+	}
+}
+
+// ------------------------------- (viii) removal of a root + recomputation of dependants
+// Plain member removal leaves state.value as it was, so every removal of a tree root
+// ends at "state is not consistent" and the checks behind it are never reached.  Here
+// the state value is recomputed as Poseidon(roots, 0 for a missing one) after the
+// removal (nothing else depends on it: the signature covers the claim only, the DID
+// document says published = true), for the proof's issuerData.state and for the
+// issuer state of the revocation status answer.
+func recomputeState(obj map[string]any, valueKey string) {
+	h := func(k string) *big.Int {
+		_, hh := hexField(obj, k)
+		return orZero(hh)
+	}
+	st, err := poseidon.Hash([]*big.Int{h("claimsTreeRoot"), h("revocationTreeRoot"), h("rootOfRoots")})
+	if err != nil {
+		return
+	}
+	if hh, err := merkletree.NewHashFromBigInt(st); err == nil {
+		obj[valueKey] = hh.Hex()
+	}
+}
+
+func (d *drv) recomputeStream() {
+	roots := []string{"claimsTreeRoot", "revocationTreeRoot", "rootOfRoots"}
+	type rjob struct {
+		b      *Bundle
+		mask   int
+		status bool    // the mask applies to the status answer's issuer state
+		extra  *member // one more member removed
+	}
+	var jobs []rjob
+	for _, b := range d.bundles {
+		ex := exhaustiveMembers(b, 12)
+		for mask := 1; mask < 8; mask++ {
+			jobs = append(jobs, rjob{b: b, mask: mask})
+			for i := range ex {
+				m := ex[i]
+				if m.Doc == "cred" {
+					last, _ := m.Path[len(m.Path)-1].(string)
+					if last == "value" || last == "claimsTreeRoot" || last == "revocationTreeRoot" || last == "rootOfRoots" {
+						continue
+					}
+				}
+				jobs = append(jobs, rjob{b: b, mask: mask, extra: &m})
+			}
+			if b.Kind == "BJJSignature2021" {
+				jobs = append(jobs, rjob{b: b, mask: mask, status: true})
+			}
+		}
+	}
+	parallel(len(jobs), func(i int) {
+		j := jobs[i]
+		a := j.b.Arte()
+		var obj map[string]any
+		key := "value"
+		if j.status {
+			obj, key = asMap(a.Status["issuer"]), "state"
+		} else {
+			p, _ := jget(a.Cred, jpath{"proof", 0, "issuerData", "state"})
+			obj = asMap(p)
+		}
+		if obj == nil {
+			return
+		}
+		for r, name := range roots {
+			if j.mask&(1<<r) != 0 {
+				delete(obj, name)
+			}
+		}
+		recomputeState(obj, key)
+		if j.extra != nil {
+			a.remove(*j.extra)
+		}
+		d.mu.Lock()
+		d.rep.Count("recompute:verify")
+		d.rep.Distinct(fmt.Sprintf("recompute:%s:%d:%v:%v", j.b.Name, j.mask, j.status, j.extra))
+		d.mu.Unlock()
+		d.verifyCase(a, verifyInput{Stream: "verify", Arte: a.copy()}, true)
+	})
+	// the status answer on its own
+	for _, b := range d.bundles[:2] {
+		for mask := 1; mask < 8; mask++ {
+			for _, alsoAux := range []bool{false, true} {
+				st := cloneMap(b.Status)
+				obj := asMap(st["issuer"])
+				for r, name := range roots {
+					if mask&(1<<r) != 0 {
+						delete(obj, name)
+					}
+				}
+				recomputeState(obj, "state")
+				if alsoAux {
+					jremove(st, jpath{"mtp", "node_aux"})
+				}
+				d.rep.Count("recompute:status")
+				d.statusCase(st, b.Nonce, []string{fmt.Sprintf("roots-mask=%d recomputed", mask)})
+			}
+		}
+	}
+}
+
+// arrayIndexPaths: for every array of the document (at every depth) the dotted paths
+// with the indices len-1, len, len+1, also followed by a member name.
+func arrayIndexPaths(v any, prefix string) []string {
+	var out []string
+	join := func(a, b string) string {
+		if a == "" {
+			return b
+		}
+		return a + "." + b
+	}
+	switch x := v.(type) {
+	case map[string]any:
+		keys := make([]string, 0, len(x))
+		for k := range x {
+			if k != "@context" {
+				keys = append(keys, k)
+			}
+		}
+		sortStrings(keys)
+		for _, k := range keys {
+			out = append(out, arrayIndexPaths(x[k], join(prefix, k))...)
+		}
+	case []any:
+		n := len(x)
+		for _, i := range []int{n - 1, n, n + 1, 0} {
+			if i < 0 {
+				continue
+			}
+			p := join(prefix, fmt.Sprint(i))
+			out = append(out, p, p+".v", p+".v.0", p+".0")
+		}
+		for i, e := range x {
+			out = append(out, arrayIndexPaths(e, join(prefix, fmt.Sprint(i)))...)
+		}
+	}
+	return out
+}
+
+// slotPathStream: W3CCredential.ToCoreClaim on a credential whose schema context puts a
+// field into a claim slot (iden3_serialization) with a path that indexes an array of the
+// credential subject at len-1, len, len+1 (fillSlot -> ResolveDocPath).
+func (d *drv) slotPathStream() {
+	const base = "https://c12.invalid/ctx/slot-"
+	subj := d.bundles[0].Cred["credentialSubject"].(map[string]any)["id"]
+	for _, idx := range []string{"0", "1", "2", "3", "1.0", "2.x", ""} {
+		url := base + idx + ".jsonld"
+		ctxDoc := fmt.Sprintf(`{"@context":[{"@version":1.1,"@protected":true,"id":"@id","type":"@type","ArrCred":{"@id":"urn:c12:ArrCred","@context":{"@version":1.1,"@protected":true,"id":"@id","type":"@type","iden3_serialization":"iden3:v1:slotIndexA=items.%s","xsd":"http://www.w3.org/2001/XMLSchema#","items":{"@id":"urn:c12:items","@type":"xsd:integer"}}}}]}`, idx)
+		if err := d.loader.Add(url, []byte(ctxDoc)); err != nil {
+			d.rep.Fail("c12-generator", "slot context does not parse: "+err.Error(), ctxDoc)
+			return
+		}
+		cred := map[string]any{
+			"id": "urn:uuid:c12-slot", "@context": []any{"https://www.w3.org/2018/credentials/v1", "https://schema.iden3.io/core/jsonld/iden3proofs.jsonld", url},
+			"type": []any{"VerifiableCredential", "ArrCred"}, "issuanceDate": "2023-12-21T16:35:46Z",
+			"credentialSubject": map[string]any{"id": subj, "type": "ArrCred", "items": []any{11, 22}},
+			"credentialStatus":  map[string]any{"id": "urn:x", "type": statusType, "revocationNonce": 1},
+			"issuer":            d.bundles[0].Cred["issuer"],
+			"credentialSchema":  map[string]any{"id": "https://c12.invalid/schema.json", "type": "JsonSchema2023"},
+		}
+		body := mustJSON(cred)
+		var vc verifiable.W3CCredential
+		if err := json.Unmarshal(body, &vc); err != nil {
+			d.rep.Fail("c12-generator", "slot credential does not decode: "+err.Error(), string(body))
+			return
+		}
+		o := guard(watchdog, func() error {
+			_, err := vc.ToCoreClaim(context.Background(), &verifiable.CoreClaimOptions{RevNonce: 1,
+				SubjectPosition: verifiable.CredentialSubjectPositionIndex,
+				MerklizerOpts:   []merklize.MerklizeOption{merklize.WithDocumentLoader(d.loader)}})
+			return err
+		})
+		d.rep.Evaluations++
+		d.rep.Count("slot-path:items." + idx + ":" + o.Class)
+		d.rep.Distinct("slot-path:" + idx)
+		if o.Class == "panic" || o.Class == "hang" {
+			d.fail("W3CCredential.ToCoreClaim(fillSlot)", o, map[string]any{"stream": "slot-path", "slot_path": "items." + idx, "credential": json.RawMessage(body)})
 		}
 	}
 }
